@@ -129,6 +129,21 @@ def directed_legacy_unused(cw, sb, rng):
         if m['type'] in off: m['enabled'] = False
     return ['directed:legacy_unused']
 
+def directed_symlink(cw, sb, rng):
+    """the user keeps some deployed files as symlinks to files elsewhere; the deploy updates them"""
+    tree = ds.world_tree(sb)
+    deployed = sorted(sb.root + p for p in tree if not ds.is_manifest_name(os.path.basename(p)))
+    for p in rng.sample(deployed, min(len(deployed), rng.randrange(1, 3))):
+        own = os.path.join(sb.home, 'userfiles', 'own%d.txt' % rng.randrange(3))
+        ds.world.write(own, open(p, 'rb').read() if rng.random() < 0.5 else b'my own notes\n')
+        os.remove(p); os.symlink(own, p)
+    for m in cw.modules:
+        for fn in sorted(m['files']):
+            if fn == 'SKILL.md': m['files'][fn] = ds.skill_md(m['id'].split(':')[1], 'rev')
+            elif m['type'] == 'command': m['files'][fn] = ds.command_md('do rev')
+            else: m['files'][fn] = b'revision\n' * 3
+    return ['directed:symlink']
+
 def directed_all_empty(cw, sb, rng):
     """regression for K7e: the deploy empties every remaining root (all manifests are rewritten empty) while an
     earlier snapshot still lists files of a nested root that is switched off now; an interruption after the last
@@ -399,6 +414,8 @@ def run(ctx):
         run_scenario(ctx, 1000 + i, kinds, 14 if quick else None, cases, directed=directed_legacy_unused)
     for i in range(2 if quick else 6):
         run_scenario(ctx, 2000 + i, kinds, 20 if quick else None, cases, directed=directed_all_empty)
+    for i in range(2 if quick else 6):
+        run_scenario(ctx, 3000 + i, kinds, 20 if quick else None, cases, directed=directed_symlink)
     for c in ctx.corr('crash', HEADER, 'check_crash', 'crash_case', cases, shard_chars=40000):
         ctx.violation('model and implementation disagree on the sequence of mutating operations / a crash-prefix disk', c, no_input=True)
     rcases = []
